@@ -863,7 +863,7 @@ pub fn c06(case_seed: u64, acc: &mut Acc) {
 pub const META_C14: Meta = Meta {
     id: "C14",
     level: "exploration",
-    rule: "Cases from profile `virtual`: 1-4 `declare` statements placed before, between, after rows and inside loop/while bodies, expressions over 1-3 device outputs (incl. bidirectional), program variables and loop counters deliberately named like the outputs the declarations read, C rows before checked rows, Z/X answers at ~5% of (call,signal) pairs, header with or without the virtual columns. Oracle: in every checked row the entry of each virtual signal (located by name) carries the declared expression evaluated by the reference over the answers of that very call with no variable visible, expected = column of that name else X; a Z/X operand makes exactly that item a runtime error (not a panic, not a value); vars() after every row still equals the program's variables. Non-trivial = >= 1 virtual signal evaluated on >= 2 checked rows with differing operands and >= 1 variable in scope with the name of an operand.",
+    rule: "Cases from profile `virtual`: 1-4 `declare` statements placed before, between, after rows and inside loop/while bodies, expressions over 1-3 device outputs (incl. bidirectional), program variables and loop counters deliberately named like the outputs the declarations read, C rows before checked rows, Z/X answers at ~5% of (call,signal) pairs, header with or without the virtual columns. Oracle: in every checked row the entry of each virtual signal (located by name) carries the declared expression evaluated by the reference over the answers of that very call with no variable visible, expected = column of that name else X; a Z/X operand makes exactly that item a runtime error (not a panic, not a value); vars() after every row still equals the program's variables. 15% of the cases have no declaration of their own, only virtual signals that came with the signal list (at any position in it, also before device outputs); the forced shadowing variable is named after an operand of either kind. Non-trivial = >= 1 virtual signal evaluated on >= 2 checked rows with differing operands and >= 1 variable in scope with the name of an operand.",
     assumptions: &["reference interpreter; unique answers distinguish this row's outputs from the previous row's"],
     quick_cases: 150000,
     thorough_cases: 2000000,
@@ -888,16 +888,28 @@ pub fn profile_virtual(r: &mut Prng) -> GenCfg {
 
 pub fn c14(case_seed: u64, acc: &mut Acc) {
     let mut r = Prng::new(case_seed);
-    let cfg = profile_virtual(&mut r);
+    let mut cfg = profile_virtual(&mut r);
+    if r.chance(150, 1000) {
+        // no declaration in the program itself: the only virtual signals are those that came
+        // with the signal list, anywhere in it (also before device outputs)
+        cfg.n_declares = (0, 0);
+        cfg.list_virtuals = 1000;
+    }
     let mut case = gen::generate(&mut r, &cfg);
-    // force variables named like the operands of the declarations
+    // force variables named like the operands of the declarations (the program's own and those
+    // of virtual signals in the signal list)
     if r.chance(600, 1000) {
-        let ops: Vec<String> = case
+        let mut ops: Vec<String> = case
             .program
             .declares()
             .iter()
             .flat_map(|(_, e)| e.idents().into_iter().map(|s| s.to_string()).collect::<Vec<_>>())
             .collect();
+        for sg in &case.signals {
+            if let SigKind::Virtual(e) = &sg.kind {
+                ops.extend(e.idents().into_iter().map(|s| s.to_string()));
+            }
+        }
         if !ops.is_empty() {
             let n = r.pick(&ops).clone();
             let v = r.range(0, 1000);
@@ -915,6 +927,7 @@ pub fn c14(case_seed: u64, acc: &mut Acc) {
         |_c, ran| ran.rf.stats.virtual_evals >= 2 && ran.rf.stats.virtual_var_clash > 0 && ran.rf.stats.checked_rows >= 2,
         |c, ran, acc| {
             acc.tag_n("declarations", c.program.declares().len() as u64);
+            acc.tag_n("only_virtual_signals_from_the_signal_list", (c.program.declares().is_empty() && c.signals.iter().any(|s| matches!(s.kind, SigKind::Virtual(_)))) as u64);
             acc.tag_n("virtual_evaluations", ran.rf.stats.virtual_evals as u64);
             acc.tag_n("evaluations_with_same_named_variable_in_scope", ran.rf.stats.virtual_var_clash as u64);
             acc.tag_n("virtual_zx_error_prescribed", ran.rf.items.iter().any(|i| matches!(i, RefItem::Err(crate::refint::RefErr::VirtualZX(_)))) as u64);
